@@ -109,6 +109,11 @@ def run_case(c):
             q0, q1 = h.rand_charges(rng, m, n, c['style'])
             A = h.masked_matrix(rng, q0, q1, c['entries'])
             tag = f'r={r} shape={(m, n)} q0={q0.tolist()} q1={q1.tolist()}'
+            if A.dtype.kind in 'iu':
+                # integer matrices of every width (and booleans): the factors must be double precision
+                dt = (np.int64, np.int32, np.int16, np.int8, np.bool_)[r % 5]
+                A = (A != 0) if dt is np.bool_ else A.astype(dt)
+                tag += f' dtype={np.dtype(dt).name}'
             if A.dtype.kind in 'fc' and r % 3 == 2:
                 # "for every matrix": the same matrix at a very small / very large overall scale, or with one block scaled
                 f = float(10.0 ** rng.choice([-18, -12, -6, 6, 12]))
